@@ -29,6 +29,8 @@ impl Debug for AgonesDiscoveryAdapter {
 
 impl AgonesDiscoveryAdapter {
     pub async fn new(namespace: Option<String>, watch_config: Config) -> Result<Self, Error> {
+        #[cfg(passage_verif)]
+        use crate::verif::Client;
         let inner: Arc<RwLock<Vec<Target>>> = Arc::new(RwLock::new(Vec::new()));
         let token = CancellationToken::new();
 
